@@ -383,6 +383,19 @@ func (obj *Package) DefConst(name string, value Object, doc string) (vv *VarVal)
 		if vv.Const && ObjectEqual(vv.Val, value) {
 			return vv
 		}
+		if !vv.Const && Unbound == vv.Val && vv.Get == nil && vv.Set == nil {
+			// The unbound cell of a name that a function defined earlier
+			// refers to. It becomes the constant so that the function
+			// sees the value.
+			vv.Val = value
+			vv.Const = true
+			vv.Pkg = obj
+			vv.Doc = doc
+			obj.mu.Unlock()
+			unlock = false
+			callSetHooks(obj, name)
+			return vv
+		}
 		PackagePanic(NewScope(), 0, obj, "%s is a constant and thus can't be changed", name)
 	}
 	if obj.Locked {
